@@ -124,6 +124,17 @@ SerFails(ev, st) ==
        [] k = "c08:serialize_guard" -> \A i \in 1..Len(ev.caps) : ev.caps[i].guard /\ ev.caps[i].asan = 0
        [] k = "c08:deserialized_state" -> ev.loaded = Deserialized(st)
        [] k = "c08:state_changed_by_serializing" -> ev.state = st }
+\* ------------------------------------------------------------------ loading through a dispatcher with hooks (savefile_dispatcher_t::on_dispatch)
+\* a hook may discard a line (it still counts as read), abort the loading (negative result), rename the port or change the argument
+SetOf(q) == { q[i] : i \in 1..Len(q) }
+HookLines(lines, h) == { IF ln.addr = h.ren_from THEN [ln EXCEPT !.addr = h.ren_to]
+                         ELSE IF ln.addr = h.inc_addr THEN [ln EXCEPT !.vals = << ln.vals[1] + h.inc_by >>] ELSE ln : ln \in { m \in lines : m.addr \notin SetOf(h.discard) } }
+HookFails(ev, st) ==
+  LET lines == SaveLines(st)  h == ev.hook  aborts == h.abort # "" /\ \E ln \in lines : ln.addr = h.abort IN
+  {k \in {"c12:hook_result", "c12:hook_loaded_state", "c12:hook_called_per_line"} :
+   ~ CASE k = "c12:hook_result" -> IF aborts THEN ev.ret < 0 ELSE ev.ret = Cardinality(lines)
+       [] k = "c12:hook_loaded_state" -> aborts \/ ev.loaded = LoadLines(HookLines(lines, h))
+       [] k = "c12:hook_called_per_line" -> aborts \/ ev.hook_calls = Cardinality(lines) }
 RawFails(ev) == {k \in {"c12:bad_file_accepted"} : ~ (ev.ret < 0) }
 Mismatch(ev, before, after) ==
   CASE ev.op = "set" -> SetFails(ev, before, after)
@@ -132,6 +143,7 @@ Mismatch(ev, before, after) ==
     [] ev.op = "saveload" -> SaveFails(ev, after) \cup PermFails(ev, after) \cup DropFails(ev, after)
     [] ev.op = "loadraw" -> RawFails(ev)
     [] ev.op = "serialize" -> SerFails(ev, after)
+    [] ev.op = "savehook" -> SaveFails(ev, after) \cup HookFails(ev, after)
     [] ev.op = "floatseq" -> FloatSeqFails(ev, before, after)
     [] OTHER -> {}
 Judge == (l <= 1) \/ LET m == Mismatch(Evs[l - 1], sp, s) \cup (IF Evs[l - 1].asan # 0 THEN {"memory_error"} ELSE {}) IN m = {} \/ PrintT(<<"REJECT", x, m, l - 1>>)
